@@ -29,7 +29,7 @@ mod parse_diff;
 
 use generate::{Case, CaseFile};
 use roto::verif_hooks::c06::{char_flags, lex_all, report_locations, report_stage};
-use roto::{FileSpec, FileTree, Runtime, SourceFile};
+use roto::{Context, FileSpec, FileTree, Runtime, SourceFile};
 use rotov_harness::driver::{Driver, hex};
 use rotov_harness::{Prng, Report};
 use serde_json::{Value, json};
@@ -91,6 +91,20 @@ fn take_panic() -> (String, String) {
         .unwrap_or_else(|| ("unknown".into(), "panic".into()))
 }
 
+/// The context of the second runtime: cases whose kind ends in `[ctx]` are
+/// compiled with it (context variables `cx`, `flag` are in scope of every
+/// script; constants must not depend on them).
+#[derive(Clone, Context)]
+struct C06Ctx {
+    pub cx: u64,
+    pub flag: bool,
+}
+type CxRuntime = Runtime<roto::Ctx<C06Ctx>>;
+
+fn cx_runtime() -> CxRuntime {
+    Runtime::new().with_context_type::<C06Ctx>().expect("runtime with a context type")
+}
+
 fn build_tree(case: &Case) -> FileTree {
     fn sf(f: &CaseFile) -> SourceFile {
         SourceFile {
@@ -123,7 +137,9 @@ fn stage(name: &str) {
 }
 
 /// Compile one case stage by stage; returns the outcome bucket.
-fn run_case(rt: &Runtime<roto::NoCtx>, case: &Case, mut drv: Option<&mut Driver>, rep: &mut Report, idx: u64) {
+fn run_case(rts: &(Runtime<roto::NoCtx>, CxRuntime), case: &Case, mut drv: Option<&mut Driver>, rep: &mut Report, idx: u64) {
+    let rt = &rts.0;
+    let with_ctx = case.kind.ends_with("[ctx]");
     rep.evaluations += 1;
     let input = case.to_json();
     rep.hist("generator", case.kind.clone());
@@ -218,23 +234,29 @@ fn run_case(rt: &Runtime<roto::NoCtx>, case: &Case, mut drv: Option<&mut Driver>
     let tree = build_tree(case);
     let mut cur = "parse";
     stage(cur);
-    let res = catch_unwind(AssertUnwindSafe(|| -> Result<(), roto::RotoReport> {
-        let parsed = tree.parse()?;
-        cur = "typecheck";
-        stage(cur);
-        let checked = parsed.typecheck(rt)?;
-        cur = "lower-mir";
-        stage(cur);
-        let mir = checked.lower_to_mir();
-        cur = "lower-lir";
-        stage(cur);
-        let lir = mir.lower_to_lir();
-        cur = "codegen";
-        stage(cur);
-        let pkg = lir.codegen();
-        drop(pkg);
-        Ok(())
-    }));
+    // the stages are typed by the runtime's context: one expansion per runtime
+    macro_rules! stages {
+        ($rt:expr) => {
+            catch_unwind(AssertUnwindSafe(|| -> Result<(), roto::RotoReport> {
+                let parsed = tree.parse()?;
+                cur = "typecheck";
+                stage(cur);
+                let checked = parsed.typecheck($rt)?;
+                cur = "lower-mir";
+                stage(cur);
+                let mir = checked.lower_to_mir();
+                cur = "lower-lir";
+                stage(cur);
+                let lir = mir.lower_to_lir();
+                cur = "codegen";
+                stage(cur);
+                let pkg = lir.codegen();
+                drop(pkg);
+                Ok(())
+            }))
+        };
+    }
+    let res = if with_ctx { stages!(&rts.1) } else { stages!(rt) };
     let outcome = match res {
         Err(_) => {
             let (loc, msg) = take_panic();
@@ -421,7 +443,8 @@ fn worker(args: &[String]) {
     install_panic_hook();
     let t0 = Instant::now();
     start_watchdog(t0);
-    let rt = Runtime::new();
+    let rts = (Runtime::new(), cx_runtime());
+    let rt = &rts.0;
     let mut rep = Report::default();
     let mut drv = Driver::spawn().ok();
     let seeds = g::Seeds::load();
@@ -440,12 +463,12 @@ fn worker(args: &[String]) {
                 mark(true);
                 if idx % 25 == 24 {
                     if let Some(d) = drv.as_mut() {
-                        cycle_case(&rt, d, &mut p, &mut rep, idx);
+                        cycle_case(rt, d, &mut p, &mut rep, idx);
                         rep.evaluations += 1;
                     }
                 } else {
                     let case = g::generate(&mut p, &seeds);
-                    run_case(&rt, &case, drv.as_mut(), &mut rep, idx);
+                    run_case(&rts, &case, drv.as_mut(), &mut rep, idx);
                 }
                 mark(false);
             }
@@ -458,7 +481,7 @@ fn worker(args: &[String]) {
                 println!("START {idx}");
                 let _ = std::io::stdout().flush();
                 mark(true);
-                run_case(&rt, &corpus[idx].1, drv.as_mut(), &mut rep, idx as u64);
+                run_case(&rts, &corpus[idx].1, drv.as_mut(), &mut rep, idx as u64);
                 mark(false);
             }
         }
@@ -470,7 +493,7 @@ fn worker(args: &[String]) {
                 println!("START {idx}");
                 let _ = std::io::stdout().flush();
                 mark(true);
-                run_case(&rt, &cases[idx], drv.as_mut(), &mut rep, idx as u64);
+                run_case(&rts, &cases[idx], drv.as_mut(), &mut rep, idx as u64);
                 mark(false);
             }
         }
@@ -482,7 +505,7 @@ fn worker(args: &[String]) {
                 println!("START {idx}");
                 let _ = std::io::stdout().flush();
                 mark(true);
-                run_case(&rt, &cases[idx], drv.as_mut(), &mut rep, idx as u64);
+                run_case(&rts, &cases[idx], drv.as_mut(), &mut rep, idx as u64);
                 mark(false);
             }
         }
@@ -491,7 +514,7 @@ fn worker(args: &[String]) {
             let case = Case::from_json(&v).expect("case");
             println!("START 0");
             mark(true);
-            run_case(&rt, &case, drv.as_mut(), &mut rep, 0);
+            run_case(&rts, &case, drv.as_mut(), &mut rep, 0);
             mark(false);
         }
         _ => std::process::exit(64),
